@@ -1,0 +1,135 @@
+package schema
+
+import (
+	"fmt"
+)
+
+// checkDefaultExpansion panics if filling in the default value of one of the object's properties would
+// require filling in that same default again, for example a property referencing its own object whose default
+// is "{}". Unserializing any input that leaves such a property out would recurse until the stack is exhausted,
+// which ends the process and cannot be recovered from, so the schema is refused when it is linked instead.
+func (o *ObjectSchema) checkDefaultExpansion() {
+	for propertyID, defaultValue := range o.GetDefaults() {
+		property, ok := o.PropertiesValue[propertyID]
+		if !ok || property == nil {
+			continue
+		}
+		expanding := map[*PropertySchema]struct{}{property: {}}
+		if defaultExpandsForever(property.TypeValue, defaultValue, expanding) {
+			panic(BadArgumentError{
+				Message: fmt.Sprintf(
+					"The default value of property '%s' of object '%s' leads back to the same property without a value: "+
+						"applying it would never end",
+					propertyID, o.IDValue,
+				),
+			})
+		}
+	}
+}
+
+// defaultExpandsForever follows data, a decoded default value, through the type t the way Unserialize does and
+// reports whether one of the properties in expanding would have to be filled from its default again.
+func defaultExpandsForever(t Type, data any, expanding map[*PropertySchema]struct{}) bool {
+	switch typed := t.(type) {
+	case Ref:
+		if !typed.ObjectReady() {
+			return false
+		}
+		return defaultExpandsForever(typed.GetObject(), data, expanding)
+	case Scope:
+		root, ok := typed.Objects()[typed.Root()]
+		if !ok {
+			return false
+		}
+		return defaultExpandsForever(root, data, expanding)
+	case Object:
+		return objectDefaultExpandsForever(typed, data, expanding)
+	case UntypedList:
+		items, ok := data.([]any)
+		if !ok {
+			return false
+		}
+		for _, item := range items {
+			if defaultExpandsForever(typed.Items(), item, expanding) {
+				return true
+			}
+		}
+	case UntypedMap:
+		entries, ok := data.(map[string]any)
+		if !ok {
+			return false
+		}
+		for _, value := range entries {
+			if defaultExpandsForever(typed.Values(), value, expanding) {
+				return true
+			}
+		}
+	case *OneOfSchema[string]:
+		return oneOfDefaultExpandsForever(typed, data, expanding)
+	case *OneOfSchema[int64]:
+		return oneOfDefaultExpandsForever(typed, data, expanding)
+	}
+	return false
+}
+
+func objectDefaultExpandsForever(object Object, data any, expanding map[*PropertySchema]struct{}) bool {
+	properties := object.Properties()
+	fields, ok := data.(map[string]any)
+	if !ok {
+		if concrete, isObjectSchema := object.(*ObjectSchema); isObjectSchema && len(properties) == 1 &&
+			!concrete.inlineShorthandCycles() {
+			// Shorthand: a non-map value stands for the only property.
+			for _, property := range properties {
+				return defaultExpandsForever(property.TypeValue, data, expanding)
+			}
+		}
+		return false
+	}
+	defaults := object.GetDefaults()
+	for propertyID, property := range properties {
+		if value, present := fields[propertyID]; present {
+			if defaultExpandsForever(property.TypeValue, value, expanding) {
+				return true
+			}
+			continue
+		}
+		defaultValue, hasDefault := defaults[propertyID]
+		if !hasDefault {
+			continue
+		}
+		if _, again := expanding[property]; again {
+			return true
+		}
+		expanding[property] = struct{}{}
+		forever := defaultExpandsForever(property.TypeValue, defaultValue, expanding)
+		delete(expanding, property)
+		if forever {
+			return true
+		}
+	}
+	return false
+}
+
+func oneOfDefaultExpandsForever[KeyType int64 | string](
+	oneOf *OneOfSchema[KeyType],
+	data any,
+	expanding map[*PropertySchema]struct{},
+) bool {
+	fields, ok := data.(map[string]any)
+	if !ok {
+		return false
+	}
+	discriminator, ok := fields[oneOf.DiscriminatorFieldNameValue]
+	if !ok || discriminator == nil {
+		return false
+	}
+	key, err := oneOf.getTypedDiscriminator(discriminator)
+	if err != nil {
+		return false
+	}
+	member, ok := oneOf.TypesValue[key]
+	if !ok || member == nil {
+		return false
+	}
+	return defaultExpandsForever(member, data, expanding)
+}
